@@ -1,3 +1,206 @@
 import Abverif.Model.WsSpec
+import Abverif.Proofs.Lemmas.WsExt
+import Abverif.Proofs.C15
+/-
+C01 — messages arrive intact, exactly once and in order: theorems about the send side and the wire format.
+-/
 namespace Abverif.Ws
+open Abverif.Xor
+
+/-! ### big-endian length fields -/
+
+theorem beBytes_length (k n : Nat) : (beBytes k n).length = k := by
+  induction k generalizing n with
+  | zero => rfl
+  | succ k ih => simp [beBytes, ih]
+
+theorem beNat_append_singleton (l : Bytes) (b : UInt8) : beNat (l ++ [b]) = beNat l * 256 + b.toNat := by
+  simp [beNat, List.foldl_append]
+
+theorem beNat_beBytes (k n : Nat) (h : n < 256 ^ k) : beNat (beBytes k n) = n := by
+  induction k generalizing n with
+  | zero => simp [beBytes, beNat] at *; omega
+  | succ k ih =>
+    simp only [beBytes, beNat_append_singleton]
+    have h1 : n / 256 < 256 ^ k := by
+      rw [Nat.pow_succ] at h
+      exact Nat.div_lt_of_lt_mul (by omega)
+    rw [ih _ h1]
+    have : (UInt8.ofNat (n % 256)).toNat = n % 256 := by
+      simp [UInt8.toNat_ofNat]
+    rw [this]
+    omega
+
+/-! ### payload length encoding (`sendFrame`, `beginMessageFrame`, `PreparedMessage`) at every boundary -/
+
+theorem encodeLen_7 (l : Nat) (h : l ≤ 125) : encodeLen l = some (l, []) := by simp [encodeLen, h]
+
+theorem encodeLen_16 (l : Nat) (h1 : 125 < l) (h2 : l ≤ 65535) : encodeLen l = some (126, beBytes 2 l) := by
+  unfold encodeLen
+  rw [if_neg (by omega), if_pos (by omega)]
+
+theorem encodeLen_64 (l : Nat) (h1 : 65535 < l) (h2 : l ≤ 2 ^ 63 - 1) : encodeLen l = some (127, beBytes 8 l) := by
+  unfold encodeLen
+  rw [if_neg (by omega), if_neg (by omega), if_pos (by omega)]
+
+theorem encodeLen_none (l : Nat) (h : 2 ^ 63 - 1 < l) : encodeLen l = none := by
+  unfold encodeLen
+  rw [if_neg (by omega), if_neg (by omega), if_neg (by omega)]
+
+/-- **lenCodec_roundtrip**: whatever `encodeLen` emits decodes to the same length and is accepted by the
+minimal-encoding rule of the Spec — for every length below 2^63 (0, 125, 126, 65535, 65536 included) -/
+theorem lenCodec_roundtrip (l l7 : Nat) (ext : Bytes) (h : encodeLen l = some (l7, ext)) :
+    (if l7 < 126 then l7 else beNat ext) = l ∧ WsSpec.extLenOk l7 l = true ∧ l7 < 128 ∧
+    ext.length = (if l7 = 126 then 2 else if l7 = 127 then 8 else 0) := by
+  unfold encodeLen at h
+  split at h
+  · rename_i h125
+    cases h
+    have a : l ≠ 126 := by omega
+    have b : l ≠ 127 := by omega
+    have c : l < 126 := by omega
+    simp [WsSpec.extLenOk, a, b, c]; omega
+  · split at h
+    · cases h
+      refine ⟨?_, ?_, by omega, by simp [beBytes_length]⟩
+      · simp; exact beNat_beBytes 2 l (by omega)
+      · simp [WsSpec.extLenOk]; omega
+    · split at h
+      · cases h
+        refine ⟨?_, ?_, by omega, by simp [beBytes_length]⟩
+        · simp; exact beNat_beBytes 8 l (by omega)
+        · simp [WsSpec.extLenOk]; omega
+      · cases h
+
+/-! ### fragmentation loop of `sendMessage` -/
+
+theorem fragments_concat (pfs : Nat) (hp : 1 ≤ pfs) :
+    ∀ (fuel : Nat) (pl : Bytes), pl.length ≤ fuel → ((fragments pfs fuel pl).map (·.1)).flatten = pl := by
+  intro fuel
+  induction fuel with
+  | zero => intro pl h; simp [fragments]
+  | succ n ih =>
+    intro pl h
+    unfold fragments
+    split
+    · simp
+    · rename_i hlt
+      simp only [List.map_cons, List.flatten_cons]
+      rw [ih (pl.drop pfs) (by simp; omega)]
+      exact List.take_append_drop _ _
+
+/-- exactly the last fragment carries FIN -/
+theorem fragments_fin (pfs : Nat) :
+    ∀ (fuel : Nat) (pl : Bytes), ∃ (init : List (Bytes × Bool)) (last : Bytes),
+      fragments pfs fuel pl = init ++ [(last, true)] ∧ ∀ x ∈ init, x.2 = false ∧ x.1.length = pfs := by
+  intro fuel
+  induction fuel with
+  | zero => intro pl; exact ⟨[], pl, by simp [fragments], by simp⟩
+  | succ n ih =>
+    intro pl
+    unfold fragments
+    split
+    · exact ⟨[], pl, by simp, by simp⟩
+    · rename_i hlt
+      obtain ⟨init, last, e, hall⟩ := ih (pl.drop pfs)
+      refine ⟨(pl.take pfs, false) :: init, last, by simp [e], ?_⟩
+      intro x hx
+      rcases List.mem_cons.mp hx with h | h
+      · subst h; simp; omega
+      · exact hall x h
+
+/-- the same for write-chopping (`sendData(…, chopsize)`): the chunks concatenate to the data -/
+theorem chop_flatten (c : Nat) (hc : 1 ≤ c) :
+    ∀ (fuel : Nat) (d : Bytes), d.length ≤ fuel → (chop c fuel d).flatten = d := by
+  intro fuel
+  induction fuel with
+  | zero => intro d h; simp [chop]
+  | succ n ih =>
+    intro d h
+    unfold chop
+    split
+    · simp
+    · rename_i hlt
+      simp only [List.flatten_cons]
+      rw [ih (d.drop c) (by simp; omega)]
+      exact List.take_append_drop _ _
+
+/-! ### the send queue preserves order (sync / chopped writes) -/
+
+def writeOf : Out → Option Bytes
+  | .write b => some b
+  | _ => none
+
+/-- all octets handed to `transport.write` so far -/
+def written (s : S) : Bytes := (s.log.filterMap writeOf).flatten
+
+/-- octets written or still queued, in order -/
+def wire (s : S) : Bytes := written s ++ s.sendQueue.flatten
+
+theorem sendTick_wire (s : S) (h : s.st ≠ .closed) : wire (sendTick s) = wire s := by
+  unfold sendTick wire written
+  split
+  · rename_i e rest hq
+    simp [S.timer, S.emit, h, hq, List.filterMap_append, writeOf]
+  · rename_i hq
+    simp
+
+theorem trigger_wire (s : S) (h : s.st ≠ .closed) : wire (trigger s) = wire s := by
+  unfold trigger
+  split
+  · rw [sendTick_wire _ (by simpa using h)]; rfl
+  · rfl
+
+/-- **queue_order** (one call): whatever mode `sendData` uses — direct write, queued because earlier data is still
+queued, synchronous, or chopped — the octets go out after everything passed to `sendData` before, unreordered -/
+theorem sendData_wire (s : S) (d : Bytes) (sync : Bool) (chopsize : Nat) (h : s.st ≠ .closed)
+    (hl : ¬ (s.lost = true ∧ s.cfg.asyncio = true)) :
+    wire (sendData s d sync chopsize) = wire s ++ d := by
+  unfold sendData
+  split
+  · rename_i hc
+    rw [trigger_wire _ (by simpa using h)]
+    simp [wire, written, chop_flatten chopsize (by omega) d.length d (Nat.le_refl _)]
+  · split
+    · rw [trigger_wire _ (by simpa using h)]
+      simp [wire, written]
+    · rename_i h1 h2
+      have hq : s.sendQueue = [] := by
+        cases hs : s.sendQueue with
+        | nil => rfl
+        | cons a b => simp [hs] at h2
+      split
+      · rename_i h3; exact absurd (by simpa using h3) hl
+      · simp [wire, written, S.emit, List.filterMap_append, writeOf, hq]
+
+theorem sendData_st (s : S) (d : Bytes) (sync : Bool) (c : Nat) : (sendData s d sync c).st = s.st :=
+  (sendData_SendEq s d sync c).st
+
+/-- **queue_order**: any sequence of `sendData` calls with any mix of modes -/
+theorem queue_order (ds : List (Bytes × Bool × Nat)) :
+    ∀ (s : S), s.st ≠ .closed → ¬ (s.lost = true ∧ s.cfg.asyncio = true) →
+      wire (ds.foldl (fun s d => sendData s d.1 d.2.1 d.2.2) s) = wire s ++ (ds.map (·.1)).flatten := by
+  induction ds with
+  | nil => intro s _ _; simp
+  | cons d ds ih =>
+    intro s h hl
+    simp only [List.foldl_cons, List.map_cons, List.flatten_cons]
+    rw [ih _ (by rw [sendData_st]; exact h)
+          (by rw [(sendData_SendEq _ _ _ _).lost, (sendData_SendEq _ _ _ _).cfg]; exact hl),
+        sendData_wire s _ _ _ h hl, List.append_assoc]
+
+/-- once the queue has drained, everything is on the transport -/
+theorem wire_drained (s : S) (h : s.sendQueue = []) : wire s = written s := by simp [wire, h]
+
+/-! ### mask policy of `sendFrame` (C15's wire clause) -/
+
+/-- by default a client masks every frame and a server none; the key is a fresh draw from the key stream per frame -/
+theorem default_mask_policy (cfg : Cfg) (h1 : cfg.maskClient = true) (h2 : cfg.maskServer = false) (s : S)
+    (hc : s.cfg = cfg) :
+    (drawKey s).2 = (if cfg.isServer then none else some (keyOf s.keyCtr)) ∧
+    (drawKey s).1.keyCtr = (if cfg.isServer then s.keyCtr else s.keyCtr + 1) := by
+  unfold drawKey S.masksFrames
+  rw [hc]
+  cases hsrv : cfg.isServer <;> simp [h1, h2]
+
 end Abverif.Ws
